@@ -23,7 +23,9 @@ RULE = ("pop-on programs built from an abstract model: per caption [ENM] RCL, 1-
         "Non-trivial: >= 2 rows, or a non-basic character, or italics, or doubled codes, or >= "
         "2 captions. "
         'The SCCReader object is fresh or has a past (an ok document ending on a generated '
-        'row, a rejected flash cue, a malformed timecode, the same document). ')
+        'row, a rejected flash cue, a malformed timecode, the same document). '
+        "Blocks of one screen (non-adjacent rows) must carry identical (start, end) with end > "
+        "start, whether the screen is erased by EDM, replaced by the next EOC, or never erased. ")
 ASSUMPTIONS = [
     "rows are loaded in ascending order with one PAC each; tab offsets directly follow a PAC",
     "whitespace: a transmitted space between two visible characters must survive, no "
@@ -36,10 +38,10 @@ ASSUMPTIONS = [
 def expected_captions(prog, lines=None):
     shown = SP.reference(prog, lines)
     out = []
-    for scr in shown:
+    for k, scr in enumerate(shown):
         for g in scr["groups"]:
             out.append({"start": scr["start"], "end": scr["end"], "row": g["row"], "col": g["col"],
-                        "lines": g["lines"]})
+                        "lines": g["lines"], "screen": k})
     return out
 
 
@@ -90,6 +92,13 @@ def compare(prog, rec, doc=None, lines=None):
                     f"({[(e['row'], len(e['lines'])) for e in exp]}): {doc}")
     for i, (c, e) in enumerate(zip(caps, exp)):
         what = f"caption {i} (screen row {e['row']})"
+        if i and exp[i - 1]["screen"] == e["screen"]:
+            # blocks of one screen are displayed and erased together
+            p = caps[i - 1]
+            require((p.start, p.end) == (c.start, c.end),
+                    lambda: f"{what}: shown together with caption {i - 1} but times differ: "
+                            f"({p.start}, {p.end}) vs ({c.start}, {c.end}): {doc}")
+        require(c.end > c.start, lambda: f"{what}: ends ({c.end}) before it starts ({c.start}): {doc}")
         _check_balanced(c, what)
         pl = [l for l in _py_lines(c)]
         pl_nonempty = [l for l in pl if l]
